@@ -303,12 +303,27 @@ def tr_base_call():
     return "Definition gen_base_call_is_fun_on_grid : bool := true."
 
 
+def tr_build_ic_set():
+    """exponax/_utils.py build_ic_set: the scan that splits the key once per sample and hands the sub-key to the generator (text)"""
+    tree = ast.parse(open(os.path.join(REPO, "exponax", "_utils.py")).read())
+    fn = find_func(tree.body, "build_ic_set")
+    if [a.arg for a in fn.args.args] != ["ic_generator"] or [a.arg for a in fn.args.kwonlyargs] != ["num_points", "num_samples", "key"]:
+        raise TranslationError("build_ic_set signature")
+    body = strip_doc(fn.body)
+    want = ["def scan_fn(k, _):\n    k, sub_k = jr.split(k)\n    ic = ic_generator(num_points, key=sub_k)\n    return (k, ic)",
+            "_, ic_set = jax.lax.scan(scan_fn, key, None, length=num_samples)", "return ic_set"]
+    if not same_all(body, want):
+        raise TranslationError("build_ic_set: " + repr([ast.unparse(s) for s in body])[:300])
+    return ("(* build_ic_set: sample i is generated with the second half of the i-th split of the carried key (first half carried on) *)\n"
+            "Definition gen_ic_set_splits_per_sample : nat := 1.\nDefinition gen_ic_set_uses_subkey : bool := true.")
+
+
 def generate():
     parts = ["(* GENERATED by harness/translate/icgen.py from /repo/exponax/ic -- do not edit. *)",
              "From Coq Require Import ZArith List Bool.", "From EXV Require Import Base.Scalar IC.Normalize.",
              "Import ListNotations.", ""]
     for f in (tr_normalize_ic, tr_disc_normalize, tr_sine_normalize, tr_clamp, tr_scaled, tr_tfs, tr_grf, tr_diffused,
-              tr_discontinuity, tr_multi, tr_base_call):
+              tr_discontinuity, tr_multi, tr_base_call, tr_build_ic_set):
         parts.append(f())
     return "\n".join(parts) + "\n"
 
